@@ -73,6 +73,14 @@ MulByCofactorInv(d) ==
     /\ regs' = [regs EXCEPT ![d] = PMul(C, NModInv(NMod(C.h, C.r), C.r), regs[d])]
     /\ ev' = [op |-> "mul_by_cofactor_inv", d |-> d]
 
+\* multi-scalar multiplication over bases that are known multiples as[i] of the point in register s:
+\*   regs[d] := sum_i ks[i] * (as[i] * regs[s]) = (sum_i ks[i] as[i]) * regs[s]      (integers, no reduction needed)
+\* (full-size MSM: any number of terms costs the specification one scalar multiplication)
+MsmLin(d, s, as, ks, alg) ==
+    /\ Len(as) = Len(ks)
+    /\ regs' = [regs EXCEPT ![d] = PMul(C, FoldLeft(LAMBDA acc, i : NAdd(acc, NMul(as[i], ks[i])), NZero, UpTo(1, Len(as))), regs[s])]
+    /\ ev' = [op |-> "msm", d |-> d, s |-> s, alg |-> alg]
+
 \* representation-only steps (abstract state unchanged): conversions, batch normalisation
 Repr(op, ds) == /\ UNCHANGED regs /\ ev' = [op |-> op, ds |-> ds]
 =============================================================================
